@@ -50,8 +50,8 @@ func init() {
 		Meta: func(tier string) fw.Meta {
 			na, nb := c11Sizes(tier)
 			return fw.Meta{N: na + nb, Level: "fault_enumeration", Chunk: 8, CaseTimeoutS: 240, MinNT: 60,
-				Rule:        "(a) one case = one seeded input set (1..4 ascending inputs, overlapping for the compacting merges, disjoint for Merge) run through Merge / MergeCompact with both reductions / MergeCompactIterator: single fault at EVERY Next position of EVERY input (variants: fail-then-continue, fail-repeatedly, fail-then-end, and the first and third with a failed call that has consumed its record and reports a wrapped temporary system error) and at EVERY WriteNext position, plus sampled double faults; every 6th case instead merges REAL tables (reader.Scan, no validation on load) one of whose data files ends early at every record boundary and inside records; oracle: error returned, or output identical to the fault-free output. (b) one case = one SimpleDB scenario in a sub-process (flush of a memstore, one compaction cycle over 2..4 tables, or the flush that Open performs for the replayed WAL of a hand-placed kill image) with one fault: k-th data append / k-th index append of the stream writer, the index writer's final flush in Close, p-th record of an input iterator, one bit of a stored payload of an input table flipped on disk after the table was loaded, RLIMIT_FSIZE = L bytes (kernel-level EFBIG at the first write crossing L), or ONE file of the flushed table (metadata, index, data, bloom filter) on a full device (symlink to /dev/full planted in the directory the flush will use: ENOSPC on every write to it); and compactions run by the REAL background compactor whose input fails while Close is already waiting for it (the failing iterator holds its error until the goroutine dump shows Close waiting for the compactor's done signal, its stop request sent); oracle: process stopped or error returned, never success with reads differing from the model; after a reported error the same process and a fresh process must still read the model. evaluations = fault runs; non-trivial = fault actually reached; distinct by (input hash, fault)",
-				MinObs:      map[string]int64{"merger_fault_runs": 3000, "merger_faults_reached": 2000, "merger_errors_reported": 1000, "db_fault_scenarios": 100, "db_fault_reached": 40, "db_process_stopped_or_error": 30, "rlimit_faults_reached": 5, "full_device_faults_reached": 5, "live_compactor_failures_while_close_waits": 5, "damaged_input_records_met_by_a_compaction": 5},
+				Rule:        "(a) one case = one seeded input set (1..4 ascending inputs, overlapping for the compacting merges, disjoint for Merge) run through Merge / MergeCompact with both reductions / MergeCompactIterator: single fault at EVERY Next position of EVERY input (variants: fail-then-continue, fail-repeatedly, fail-then-end, and the first and third with a failed call that has consumed its record and reports a wrapped temporary system error) and at EVERY WriteNext position, plus sampled double faults; every 6th case instead merges REAL tables (reader.Scan, no validation on load) one of whose data files ends early at every record boundary and inside records; oracle: error returned, or output identical to the fault-free output. (b) one case = one SimpleDB scenario in a sub-process (flush of a memstore, one compaction cycle over 2..4 tables, or the flush that Open performs for the replayed WAL of a hand-placed kill image) with one fault: k-th data append / k-th index append of the stream writer, the index writer's final flush in Close, p-th record of an input iterator, one bit of a stored payload of an input table flipped on disk after the table was loaded, RLIMIT_FSIZE = L bytes (kernel-level EFBIG at the first write crossing L), or ONE file of the flushed table (metadata, index, data, bloom filter) on a full device (symlink to /dev/full planted in the directory the flush will use: ENOSPC on every write to it); and compactions run by the REAL background compactor whose input fails while Close is already waiting for it (the failing iterator holds its error until the goroutine dump shows Close waiting for the compactor's done signal, its stop request sent); oracle: process stopped or error returned, never success with reads differing from the model; after a reported error the same process and a fresh process must still read the model. evaluations = fault runs; non-trivial = fault actually reached; distinct by (input hash, fault) Half of the hook/size-limit compaction scenarios make the oldest table larger than the size limit, so the cycle leaves it out and keeps tombstones; every second flush scenario places the same faults in the flush that Close performs (verdict once the flusher goroutine is gone).",
+				MinObs:      map[string]int64{"faults_reached_in_cycles_that_leave_the_oldest_table_out": 20, "faults_placed_in_the_flush_that_close_performs": 50, "merger_fault_runs": 3000, "merger_faults_reached": 2000, "merger_errors_reported": 1000, "db_fault_scenarios": 100, "db_fault_reached": 40, "db_process_stopped_or_error": 30, "rlimit_faults_reached": 5, "full_device_faults_reached": 5, "live_compactor_failures_while_close_waits": 5, "damaged_input_records_met_by_a_compaction": 5},
 				Assumptions: []string{"hook-level failures are clean failures; RLIMIT_FSIZE failures are real EFBIG results of write(2) through the real buffered writers", "a flush failure ends the process (log.Panicf) — the recoverability of what it leaves behind belongs to C02"},
 			}
 		},
